@@ -74,6 +74,8 @@ type linAn struct {
 	in    ssa.Value // the input slice parameter; len(in) is the symbol L
 	facts []fact
 	memo  map[ssa.Value]form
+	// lenSyms: length symbols of remaining-input variables already given their bounds
+	lenSyms map[string]bool
 }
 
 func newLinAn(c *Ctx, fn *ssa.Function, in ssa.Value) *linAn {
@@ -81,17 +83,56 @@ func newLinAn(c *Ctx, fn *ssa.Function, in ssa.Value) *linAn {
 }
 
 // derivedFrom: v is the input slice or a re-slice b[lo:] / b[lo:hi] of it.
-func (a *linAn) derivedFrom(v ssa.Value) bool {
+func (a *linAn) derivedFrom(v ssa.Value) bool { return a.derivedFromD(v, map[ssa.Value]bool{}) }
+
+func (a *linAn) derivedFromD(v ssa.Value, seen map[ssa.Value]bool) bool {
 	for {
 		if v == a.in {
 			return true
 		}
-		s, ok := v.(*ssa.Slice)
-		if !ok {
-			return false
+		if seen[v] {
+			return true // a cycle through a loop phi: decided by the other edges
 		}
-		v = s.X
+		switch s := v.(type) {
+		case *ssa.Slice:
+			v = s.X
+			continue
+		case *ssa.Phi:
+			// a remaining-input variable (`rest = rest[n:]`): every edge is itself derived from the input
+			seen[v] = true
+			if !isByteSlice(s.Type()) || len(s.Edges) == 0 {
+				return false
+			}
+			for _, e := range s.Edges {
+				if !a.derivedFromD(e, seen) {
+					return false
+				}
+			}
+			return true
+		}
+		return false
 	}
+}
+
+// lowOnly: v is derived from the input by low-bound re-slicing only (x[lo:]), possibly through loop phis: its length can
+// only shrink, so 0 <= len(v) <= len(input).
+func (a *linAn) lowOnly(v ssa.Value, seen map[ssa.Value]bool) bool {
+	if v == a.in || seen[v] {
+		return true
+	}
+	switch s := v.(type) {
+	case *ssa.Slice:
+		return s.High == nil && s.Max == nil && a.lowOnly(s.X, seen)
+	case *ssa.Phi:
+		seen[v] = true
+		for _, e := range s.Edges {
+			if !a.lowOnly(e, seen) {
+				return false
+			}
+		}
+		return len(s.Edges) > 0
+	}
+	return false
 }
 
 // lenForm gives len(v) as a linear form for slices derived from the input (len(in) = L).
@@ -112,6 +153,20 @@ func (a *linAn) lenForm(v ssa.Value) form {
 			return base
 		}
 		return addF(base, a.lin(s.Low), -1)
+	}
+	if phi, ok := v.(*ssa.Phi); ok && isByteSlice(phi.Type()) && a.lowOnly(phi, map[ssa.Value]bool{}) {
+		// the length of a remaining-input variable: a symbol bounded by the input's length (the bounds of every x[lo:]
+		// that feeds it are obligations of their own)
+		name := "len(" + phi.Name() + ")"
+		if !a.lenSyms[name] {
+			if a.lenSyms == nil {
+				a.lenSyms = map[string]bool{}
+			}
+			a.lenSyms[name] = true
+			a.facts = append(a.facts, fact{f: symF(name), why: "a re-slice of the input has a non-negative length"},
+				fact{f: addF(symF("L"), symF(name), -1), why: "low-bound re-slicing only shrinks the input"})
+		}
+		return symF(name)
 	}
 	return symF("len(" + v.Name() + ")")
 }
